@@ -19,7 +19,7 @@ RULE = (
     "result index tuple, screen hash); non-trivial = result is neither empty nor the full parent"
 )
 ASSUMPTIONS = ["Plate.merge (documented to mutate the parent) is not part of the composition language"]
-REQUIRED = {"refusals_between_a_screen_and_its_copy": {"quick": 100, "thorough": 1500}, "plate_views_rechecked_after_merge": {"quick": 300, "thorough": 5000}, "parents_with_rows_marked_observed": {"quick": 200, "thorough": 3000}, "nodes_checked": {"quick": 9000, "thorough": 150000}, "alias_rechecks": {"quick": 100000, "thorough": 1500000}, "cross_parent_refusals": {"quick": 300, "thorough": 5000}}
+REQUIRED = {"screens_with_nan_or_inf_read_outs": {"quick": 100, "thorough": 1000}, "refusals_between_a_screen_and_its_copy": {"quick": 100, "thorough": 1500}, "plate_views_rechecked_after_merge": {"quick": 300, "thorough": 5000}, "parents_with_rows_marked_observed": {"quick": 200, "thorough": 3000}, "nodes_checked": {"quick": 9000, "thorough": 150000}, "alias_rechecks": {"quick": 100000, "thorough": 1500000}, "cross_parent_refusals": {"quick": 300, "thorough": 5000}}
 
 ATTRS = ["plate_ids", "sample_ids", "treatment_ids", "sample_names", "treatment_names", "treatment_doses", "observations", "observation_mask"]
 
@@ -70,6 +70,15 @@ def run_shard(rec, tier, seed, shard, nshards):
     n_screens = {"quick": 60, "thorough": 500}[tier]
     for si in range(n_screens):
         kw = gen.realistic_screen_kwargs(rng, n_rows=(1, 30), n_plates=(1, 6), p_dup=0.35, observed=str(rng.choice(["random", "some", "none", "all"])), arity=int(rng.choice([1, 2, 2])))
+        if rng.random() < 0.25:
+            # stored read-outs that are not ordinary numbers - failed wells (NaN), saturated ones (inf), exact zeros,
+            # negatives - on observed and unobserved rows alike: the views split the screen by its MASK, not by values
+            o_ = np.array(kw["observations"], dtype=float)
+            for i_ in range(len(o_)):
+                if rng.random() < 0.3:
+                    o_[i_] = float(rng.choice([float("nan"), float("nan"), float("inf"), 0.0, -1.0]))
+            kw["observations"] = o_
+            rec.count("screens_with_nan_or_inf_read_outs")
         if si == 1:
             kw = gen.realistic_screen_kwargs(rng, n_samples=(3, 8), n_drugs=(4, 8), n_rows=(1500, 4500), n_plates=(10, 60), p_dup=0.3, observed="random")
             rec.count("large_screens")
